@@ -1127,16 +1127,17 @@ func (p *Parser) parseClassElement() ClassElement {
 			method.Name.Literal = LiteralExpr{IdentifierToken, data}
 			return ClassElement{Field: Field{Static: method.Static, Name: method.Name}}
 		}
-	} else if p.tt == GetToken {
-		method.Get = true
+	} else if p.tt == GetToken || p.tt == SetToken {
+		method.Get = p.tt == GetToken
+		method.Set = p.tt == SetToken
 		data = p.data
 		staticName = false
 		p.next()
-	} else if p.tt == SetToken {
-		method.Set = true
-		data = p.data
-		staticName = false
-		p.next()
+		if p.tt == MulToken && p.prevLT {
+			// get or set is a field name, a semicolon is inserted in front of the generator method on the next line
+			method.Name.Literal = LiteralExpr{IdentifierToken, data}
+			return ClassElement{Field: Field{Static: method.Static, Name: method.Name}}
+		}
 	}
 
 	isField := false
